@@ -426,9 +426,10 @@ func writeComputedFieldExpression(w *formatting.IndentedWriter, expression dsl.E
 				if t.Operator != dsl.UnaryOpNegate {
 					panic(fmt.Sprintf("unexpected unary operator %d", t.Operator))
 				}
-				w.WriteString("-(")
+				// parenthesised as a whole: as the base of a power, '-(x) ** y' would be read as -(x ** y)
+				w.WriteString("(-(")
 				self.Visit(t.Expression, tailWrapper{})
-				w.WriteString(")")
+				w.WriteString("))")
 			})
 		case *dsl.BinaryExpression:
 			tail.Run(func() {
